@@ -83,7 +83,9 @@ class World:
             return rel.materialized(c["name"])
         if f in ("join", "pjoinl"):
             p = c["p"]
-            fixed = self.t2 if c.get("fixed", "T2") == "T2" else self.t2.without_duplicates().with_only_columns(build.tags(("a",)))
+            fx = c.get("fixed", "T2")
+            fixed = (self.t2 if fx == "T2" else self.eng["sql"].make_join_identity_relation(name="I") if fx == "I"
+                     else self.t2.without_duplicates().with_only_columns(build.tags(("a",))))
             pred = None if p == {"p": "lit", "v": True} else build.pred(p)
             before = None if pred is None else frozenset(pred.columns_required)
             if f == "join":
@@ -491,6 +493,13 @@ def run(tier: str, seed: int) -> list[Part]:
     p17.notes.append("with the pinned-commit rule (a failed backtrack rebuilds a payloaded transfer) TLC re-derives finding F17 "
                      "(ProcessedBaseSound violated)")
     parts.append(p17)
+    kf24 = run_tlc("MC_Multi.tla", "MultiKF24.cfg", expect_violation=True, heap="3g")
+    if kf24.violated != "WF":
+        raise MachineryError(f"companion MultiKF24 (sql append_binary as at the pinned commit) no longer violates WF (got {kf24.violated})")
+    p24 = Part(name="multiengine:F24-companion", cfg="MultiKF24.cfg", states=max(kf24.distinct, 1), transitions=max(kf24.generated, 1))
+    p24.notes.append("with the pinned-commit rule TLC re-derives finding F24: joining the SQL join identity with an iteration-engine relation "
+                     "returns that relation wrapped in a sql.Select marker (not engine-consistent)")
+    parts.append(p24)
     kf21 = run_tlc("MC_Multi.tla", "MultiKF21.cfg", expect_violation=True, heap="3g")
     if kf21.violated != "NoPlacementColumnError":
         raise MachineryError(f"companion MultiKF21 (Calculation.commute as at the pinned commit) no longer violates NoPlacementColumnError (got {kf21.violated})")
